@@ -207,6 +207,7 @@ type Spec struct {
 	InU    bool // blocks live in package u (importing d) rather than in d
 	Mix    Mix
 	Spell  Spell
+	ReverseParse bool // environment choice of the loader: later files of a package get the LOWER positions
 	Blocks []Block
 	Sites  []Site  // site family (IMM or CTOR)
 	Single *Single // when set: render only this one site under this wrapper in every block
